@@ -83,6 +83,17 @@ claim("C09", "exploration",
       TB + " scipy.stats.entropy / numpy.quantile trusted; the detector must draw through numpy.random.choice.",
       "DESIGN.md 4 (C09)")
 
+claim("C10", "exploration",
+      "runtime monitoring: own set/geometry oracle on the partitioner's public matrices, metamorphic twin builds "
+      "(swapped samples, same set), recording partitioner subclass + numpy RNG tap for NN-DVI decisions",
+      "Hundreds (thousands thorough) of sample pairs incl. unequal sizes, duplicates within/across samples and lattice ties "
+      "are built with the real NNSpacePartitioner: D, v1, v2 and the adjacency matrix are checked against exact set "
+      "membership and a tie-tolerant k-NN criterion, the distance is recomputed, and symmetry / range / identity are checked "
+      "on further real builds.  NN-DVI batch sequences run under the RNG tap: the partitioner built inside update is captured, "
+      "the threshold is recomputed from the logged permutations (count, argument, normal fit, quantile) and decision and "
+      "reference replacement are compared after every update.  Sampled.",
+      TB + " sklearn NearestNeighbors and scipy.stats.norm trusted.", "DESIGN.md 4 (C10)")
+
 NOT_YET = "check not built yet in this revision of /verif (planned: see DESIGN.md section 4); nothing is claimed for it"
 
 
